@@ -1,9 +1,10 @@
 (* Mem/C08CheckE.v -- the C08 checker extended with histories over paged::Memory<il::Expression>.
-   Stored values are expression trees with constant leaves, built through the public constructors on
-   both sides (`rexpr`/`build` of IL/Expr.v); loaded expressions are compared AFTER EVALUATION:
-   the harness records `eval(load result)`, the tie replays the model with V = il::Expression
-   (EOps) and evaluates what it returns, the oracle is the byte-array specification applied to the
-   denotations of the stored expressions. *)
+   Stored values are expression trees with constant AND SCALAR leaves, built through the public
+   constructors on both sides (`rexpr`/`build` of IL/Expr.v).  For every load the harness records
+   (a) the returned expression tree itself and (b) its value after the case's valuation has been
+   substituted for the scalars (`replace_scalar`, then `executor::eval`).  The tie replays the model
+   with V = il::Expression (EOps) and demands the SAME TREE (expr_eqb) and the same value; the oracle
+   is the byte-array specification applied to the denotations of the stored expressions. *)
 From Coq Require Import ZArith List Bool NArith.
 From Falcon Require Import Base.Res IL.Const IL.Expr Mem.PagedTypes Mem.Paged Mem.PagedSpec Mem.C08Check.
 Import ListNotations.
@@ -11,18 +12,27 @@ Local Open Scope Z_scope.
 
 Inductive eop :=
 | EStore (h : nat) (a : Z) (r : rexpr)
-| EOther (o : op).           (* every other operation, as in C08Check (OStore is not used here) *)
+| ELoadX (h : nat) (a bits : Z) (shape : res (option expr))   (* load, with the tree the implementation returned *)
+| EOther (o : op).           (* every other operation, as in C08Check (OStore / OLoad are not used here) *)
 
 Inductive casee :=
 | KC (k : case)                                                              (* V = il::Constant *)
-| KE (e : endian) (backs : list backing) (b0 : option nat) (ops : list (eop * obs)).   (* V = il::Expression *)
+| KE (e : endian) (backs : list backing) (b0 : option nat) (val : list (scalar * const)) (ops : list (eop * obs)).   (* V = il::Expression *)
 
 Definition emem := @mem expr.
 
-Definition eval_opt (r : res (option expr)) : res (option const) :=
-  o <- r ;; match o with None => Ok None | Some x => c <- eval x ;; Ok (Some c) end.
+(* substitute the valuation (in order), then evaluate: Expression::replace_scalar + executor::eval *)
+Fixpoint subst_all (val : list (scalar * const)) (x : expr) : res expr :=
+  match val with
+  | [] => Ok x
+  | (s, c) :: t => x' <- replace_scalar x s (EConst c) ;; subst_all t x'
+  end.
+Definition evalσ (val : list (scalar * const)) (x : expr) : res const := x' <- subst_all val x ;; eval x'.
+Definition eval_opt (val : list (scalar * const)) (r : res (option expr)) : res (option const) :=
+  o <- r ;; match o with None => Ok None | Some x => c <- evalσ val x ;; Ok (Some c) end.
+Definition shape_eqb : res (option expr) -> res (option expr) -> bool := res_eqb (opt_eqb expr_eqb).
 
-Definition estep (backs : list backing) (st : list emem) (o : eop) : option (obs * option (list emem)) :=
+Definition estep (backs : list backing) (val : list (scalar * const)) (st : list emem) (o : eop) : option (obs * option (list emem)) :=
   match o with
   | EStore h a r =>
       match nth_error st h, build r with
@@ -35,11 +45,15 @@ Definition estep (backs : list backing) (st : list emem) (o : eop) : option (obs
       | _, _ => None
       end
   | EOther (OStore _ _ _ _) => None
-  | EOther (OLoad h a bits) =>
+  | EOther (OLoad _ _ _) => None
+  | ELoadX h a bits shape =>
       match nth_error st h with
       | None => None
-      | Some m => let r := eval_opt (load EOps m a bits) in
-                  Some (BLoad r, match r with Panic => None | _ => Some st end)
+      | Some m => let x := load EOps m a bits in
+                  if shape_eqb x shape then
+                    let r := eval_opt val x in
+                    Some (BLoad r, match r with Panic => None | _ => Some st end)
+                  else None      (* the model returns a different tree: tie fails *)
       end
   | EOther (OClone s d) =>
       match nth_error st s with
@@ -73,16 +87,16 @@ Definition estep (backs : list backing) (st : list emem) (o : eop) : option (obs
       end
   end.
 
-Fixpoint replaye (backs : list backing) (st : list emem) (ops : list (eop * obs)) : bool :=
+Fixpoint replaye (backs : list backing) (val : list (scalar * const)) (st : list emem) (ops : list (eop * obs)) : bool :=
   match ops with
   | [] => true
   | (o, ob) :: t =>
-      match estep backs st o with
+      match estep backs val st o with
       | None => false
       | Some (mo, st') =>
           obs_eqb mo ob &&
           match st' with
-          | Some s => replaye backs s t
+          | Some s => replaye backs val s t
           | None => match t with [] => true | _ => false end
           end
       end
@@ -90,29 +104,31 @@ Fixpoint replaye (backs : list backing) (st : list emem) (ops : list (eop * obs)
 
 (* the history seen by the byte-array specification: every stored expression replaced by its value;
    None if some stored tree is ill-sorted or does not evaluate (outside the property) *)
-Fixpoint denote_ops (ops : list (eop * obs)) : option (list (op * obs)) :=
+Fixpoint denote_ops (val : list (scalar * const)) (ops : list (eop * obs)) : option (list (op * obs)) :=
   match ops with
   | [] => Some []
   | (EStore h a r, ob) :: t =>
-      match (x <- build r ;; eval x), denote_ops t with
+      match (x <- build r ;; evalσ val x), denote_ops val t with
       | Ok c, Some t' => Some ((OStore h a (cbits c) (cval c), ob) :: t')
       | _, _ => None
       end
+  | (ELoadX h a bits _, ob) :: t =>
+      match denote_ops val t with Some t' => Some ((OLoad h a bits, ob) :: t') | None => None end
   | (EOther o, ob) :: t =>
-      match denote_ops t with Some t' => Some ((o, ob) :: t') | None => None end
+      match denote_ops val t with Some t' => Some ((o, ob) :: t') | None => None end
   end.
 
 Definition cke (k : casee) : bool * bool :=
   match k with
   | KC c => ck c
-  | KE e backs b0 ops =>
+  | KE e backs b0 val ops =>
       match get_back backs b0 with
       | None => (false, false)
       | Some bk =>
           let m := mnew e bk in
           let s := mksh e bk [] [] 0%N in
-          (replaye backs [m; m; m] ops,
-           match denote_ops ops with
+          (replaye backs val [m; m; m] ops,
+           match denote_ops val ops with
            | Some ops' => oracle backs 1%N [s; s; s] ops'
            | None => true
            end)
